@@ -31,8 +31,35 @@ func (vc *VC) typeOf(e ast.Expr) types.Type {
 	return types.Typ[types.Invalid]
 }
 
-// subst: type-parameter substitution for the current (generic, inlined) frame. We keep it simple: no substitution.
-func (vc *VC) subst(t types.Type) types.Type { return t }
+// subst: type-parameter substitution for the current (generic, inlined) frame.
+func (vc *VC) subst(t types.Type) types.Type {
+	if len(vc.frames) == 0 {
+		return t
+	}
+	m := vc.frames[len(vc.frames)-1].targs
+	if m == nil {
+		return t
+	}
+	return substType(t, m)
+}
+
+func substType(t types.Type, m map[*types.TypeParam]types.Type) types.Type {
+	switch u := t.(type) {
+	case *types.TypeParam:
+		if r, ok := m[u]; ok {
+			return r
+		}
+	case *types.Slice:
+		return types.NewSlice(substType(u.Elem(), m))
+	case *types.Pointer:
+		return types.NewPointer(substType(u.Elem(), m))
+	case *types.Array:
+		return types.NewArray(substType(u.Elem(), m), u.Len())
+	case *types.Map:
+		return types.NewMap(substType(u.Key(), m), substType(u.Elem(), m))
+	}
+	return t
+}
 
 func (vc *VC) assumeRange(st *State, v Val) {
 	if f := vc.eng.sorts.rangeFact(v.S, v.Ty, 0); f != "" {
@@ -192,7 +219,7 @@ func (vc *VC) evalIdent(st *State, id *ast.Ident) Val {
 		}
 	case *types.Var:
 		if t, ok := st.locals[o]; ok {
-			return vc.mk(t, o.Type())
+			return vc.mk(t, vc.subst(o.Type()))
 		}
 		if vc.boxedLocal(o) != "" {
 			return vc.readBoxed(st, o)
@@ -582,6 +609,10 @@ func (vc *VC) evalSliceExpr(st *State, x *ast.SliceExpr) Val {
 			sh := vc.fresh("shift", "(Array Int "+es+")")
 			vc.assume(st, fmt.Sprintf("(forall ((k Int)) (! (= (select %s k) (select %s (+ k %s))) :pattern ((select %s k))))", sh, arr, lo, sh))
 			narr = sh
+			loS, hiS := lo, hi
+			vc.sumFacts(st, es, func(ps func(a, n string) string, f string) []string {
+				return []string{fmt.Sprintf("(= %s (- %s %s))", ps(sh, fmt.Sprintf("(- %s %s)", hiS, loS)), ps(arr, hiS), ps(arr, loS))}
+			})
 		}
 		return Val{S: fmt.Sprintf("(mk_%s %s (- %s %s) %s)", sortS, narr, hi, lo, org), Ty: types.NewSlice(elemT), Sort: sortS}
 	}
@@ -1347,13 +1378,13 @@ func (vc *VC) assign(st *State, lhs ast.Expr, v Val) {
 			vc.unsupportedf(x.Pos(), "assignment to %s", x.Name)
 			return
 		}
-		v = vc.convert(st, v, o.Type())
+		v = vc.convert(st, v, vc.subst(o.Type()))
 		if vc.boxedLocal(o) != "" {
 			vc.writeBoxed(st, o, v)
 			return
 		}
 		if _, isLocal := st.locals[o]; isLocal || o.Pkg() == nil || o.Parent() != o.Pkg().Scope() {
-			vc.setLocal(st, o, v.S, vc.sortOf(o.Type()))
+			vc.setLocal(st, o, v.S, vc.sortOf(vc.subst(o.Type())))
 			return
 		}
 		if o.Pkg() == vc.eng.pkg.Types {
